@@ -191,6 +191,12 @@ def gen_pairs(name, rng, n):
             b = bump_number(b, rng)
             if rng.random() < 0.3:
                 a = bump_number(a, rng)
+        elif r < 0.47:
+            # a version against what is left of it when a tail is cut at a separator (1.0.1-beta2 / 1.0.1, 1.2.3+b / 1.2.3)
+            cuts = [i for i, ch in enumerate(a) if ch in "-+~_^" and i > 0]
+            if not cuts or rng.random() < 0.2:
+                cuts += [i for i, ch in enumerate(a) if ch == "." and i > 0]
+            b = a[:rng.choice(cuts)] if cuts else mutate(a, rng)
         elif r < 0.5:
             b = mutate(a, rng)
         elif r < 0.75 and pool:
